@@ -147,13 +147,14 @@ pub fn check(x: &str, px: &SyntaxNode, cfg: Cfg, acc: &mut Acc) -> Result<Option
             )));
         }
     }
-    // non-trivial: formatting without the directive would have changed the protected text
-    let nontrivial = {
-        let twin = x.replacen("@typstyle off", "@typstyle 0ff", 1);
-        match fmtx::fmt(&twin, cfg) {
-            FmtOut::Ok(yt) => yt.replace("@typstyle 0ff", "@typstyle off") != y,
-            _ => false,
-        }
+    // Control run: the same source with the directive disabled (`@typstyle 0ff`, same length, same tree shape):
+    // the case is non-trivial iff the control formats differently, i.e. the directive actually protected something.
+    // (A comparison of the text *outside* the protected node with the control run was tried and removed: comments
+    // adjacent to the node and protected bodies make the two layouts differ legitimately; DESIGN.md §11.5.)
+    let twin = x.replacen("@typstyle off", "@typstyle 0ff", 1);
+    let nontrivial = match fmtx::fmt(&twin, cfg) {
+        FmtOut::Ok(yt) => yt.replace("@typstyle 0ff", "@typstyle off") != y,
+        _ => false,
     };
     Ok(Some((false, if nontrivial { Some(y) } else { None })))
 }
